@@ -933,6 +933,8 @@ func Run(seed uint64, index int64, o hx.Opts) *hx.Result {
 			})
 			rt.Join(rc, -1)
 			b.Close()
+			simnet.SealCrossover()
+			simnet.CloseUnpaired()
 			rt.Join(s1, -1)
 			rt.Join(s2, -1)
 			a.Close()
@@ -978,6 +980,8 @@ func Run(seed uint64, index int64, o hx.Opts) *hx.Result {
 			rt.Join(ts[3], -1)
 			a.Close()
 			b.Close()
+			simnet.SealCrossover()
+			simnet.CloseUnpaired()
 			rt.Join(ts[0], -1)
 			rt.Join(ts[2], -1)
 
@@ -1021,6 +1025,8 @@ func Run(seed uint64, index int64, o hx.Opts) *hx.Result {
 			}
 			rt.Join(recvr, -1)
 			r.Close() // a sender still blocked on a full window is released with an error
+			simnet.SealCrossover()
+			simnet.CloseUnpaired()
 			rt.Join(sender, -1)
 			s.Close()
 		}
